@@ -56,7 +56,9 @@ type XMLOpts struct {
 
 type nsScope map[string]string // prefix -> uri
 
-var nsPool = []XNS{{"", "urn:d"}, {"p", "urn:p"}, {"q", "urn:q"}, {"r", "urn:r"}, {"p", "urn:p2"}, {"", "urn:d2"}}
+var nsPool = []XNS{{"", "urn:d"}, {"p", "urn:p"}, {"q", "urn:q"}, {"r", "urn:r"}, {"p", "urn:p2"}, {"", "urn:d2"},
+	// the same URIs under other prefixes: only ever declared where no other prefix is bound to that URI in scope (sibling subtrees)
+	{"s", "urn:p"}, {"t", "urn:q"}, {"", "urn:r"}, {"q", "urn:d"}}
 
 var xmlTextRunes = []rune{'<', '>', '&', '"', '\'', ' ', '\n', '\t', 'é', '中', '😀', ']', 'a', 'b', '1', '2', 'x', 'y', ' '}
 
@@ -88,13 +90,20 @@ func genElem(r *core.Rand, o XMLOpts, depth int, scope nsScope, id *int) *XNode 
 		inner[k] = v
 	}
 	if o.Namespaces {
-		// declare 0..2 namespaces here, keeping "each URI bound to one prefix" (the pool guarantees it)
+		// declare 0..2 namespaces here, keeping "each URI bound to at most one prefix in any scope"
 		for i := 0; i < 2; i++ {
 			if r.Chance(1, 4) {
 				ns := nsPool[r.Intn(len(nsPool))]
 				dup := false
 				for _, have := range e.NS {
 					if have.Prefix == ns.Prefix {
+						dup = true
+					}
+				}
+				for pfx, uri := range inner {
+					if uri == ns.URI && pfx != ns.Prefix {
+						// two prefixes for one URI in the same scope: the standard decoder does not report lexical prefixes, so which one a
+						// node was written with is not observable - not generated
 						dup = true
 					}
 				}
